@@ -129,6 +129,8 @@ Lemma follow_end o post :
   follow_ok true o (sp_if (need_end_separator o) ++ x0a :: bs "endobj" ++ x0a :: post).
 Proof.
   destruct o; cbn [follow_ok]; try exact I.
+  - reflexivity.
+  - reflexivity.
   - split; [reflexivity | intros _; reflexivity].
   - split; [reflexivity | intros _; reflexivity].
   - reflexivity.
